@@ -164,15 +164,21 @@ class Solver(ABC):
                 raise ValueError("Must provide either problem instance or config")
             self.problem = instantiate(self.config.problem)
 
-        # Store core attributes
-        self.gamma = jnp.array(self.config.gamma)
-        self.epsilon = self.config.epsilon
-        self.max_batch_size = self.config.max_batch_size
-
-        # Set up precision
+        # Set up precision (before any arrays are created, so that they are
+        # float64 when double precision is requested)
         self.jax_double_precision = self.config.jax_double_precision
         if self.jax_double_precision:
             jax.config.update("jax_enable_x64", True)
+
+        # Store core attributes. gamma is given an explicit dtype: a weakly typed
+        # scalar would let float32 arrays held by a problem that was created
+        # before double precision was enabled decide the dtype of the values
+        self.gamma = jnp.array(
+            self.config.gamma,
+            dtype=jnp.float64 if self.jax_double_precision else jnp.float32,
+        )
+        self.epsilon = self.config.epsilon
+        self.max_batch_size = self.config.max_batch_size
 
         # Set up logging
         self.set_verbosity(self.config.verbose)
